@@ -66,7 +66,7 @@ def align(**kwargs: Union[SimpleNamespace, List[SimpleNamespace]]) -> List[Simpl
         if alignments[i] == 0:
             objects[i].delay = 0
         elif alignments[i] == 1:
-            objects[i].delay = (dur - calc_duration(objects[i])) / 2
+            objects[i].delay = (dur - calc_duration(objects[i]) + objects[i].delay) / 2
         elif alignments[i] == 2:
             objects[i].delay = dur - calc_duration(objects[i]) + objects[i].delay
             if objects[i].delay < 0:
